@@ -132,3 +132,19 @@ cfg("R_Intro", INTRO, ["ends", "dropped"], conns=(0, 1, 2), budget=3, inq=1, rep
 CALLS2 = ["CallFunction", "CallFunctionReply", "DestroyService"]
 cfg("R_CallsP2", CALLS2, [], script="pend2", budget=3, inq=1, replay=0, pool=("live", "dead"), cserials=(1,), objuuids=(101,), svcuuids=(201, 202), maxcookie=3)
 cfg("MC_CallsP2", CALLS2 + ["AbortFunctionCall"], ["ends"], script="pend2", budget=4, pool=("live", "dead"), cserials=(1,), objuuids=(101,), svcuuids=(201, 202), maxcookie=3)
+
+# an established channel (receiver claimed with capacity 1, 5 = just above the low-water mark, the maximum): every sequence of
+# three (design check: three, thorough six, with faults) send / grant / close requests by either end; grants include the overflowing one
+CHE = ["SendItem", "AddChannelCapacity", "CloseChannelEnd"]
+for (sc, tag) in [("est1", "1"), ("est5", "5"), ("estM", "M")]:
+    cfg(f"R_ChannelsE{tag}", CHE, [], script=sc, budget=3, inq=1, replay=0, pool=("live",), caps="CapsMany", maxcookie=2)
+    cfg(f"MC_ChannelsE{tag}", CHE + ["ClaimChannelEnd"], ["ends", "dropped"], script=sc, budget=3, pool=("live",), caps="CapsMany", maxcookie=2)
+    cfg(f"MC_ChannelsE{tag}_thorough", CHE + ["ClaimChannelEnd"], ["ends", "dropped"], script=sc, budget=6, pool=("live",), caps="CapsMany", maxcookie=2)
+
+# events from a state in which connection 1 is already subscribed (to event 0 / to all events): the owner's 1 -> 0 and
+# 0 -> 1 notifications when individual and subscribe-all subscriptions overlap, emission to a subscriber of both kinds
+EVS = ["SubscribeEvent", "UnsubscribeEvent", "EmitEvent", "SubscribeAllEvents", "UnsubscribeAllEvents"]
+for sc in ("sub", "suball"):
+    cfg(f"R_Events_{sc}", EVS, [], script=sc, budget=3, inq=1, replay=0, pool=("live",), events=(0, 1))
+    cfg(f"MC_Events_{sc}", EVS + ["DestroyService"], ["ends", "dropped"], script=sc, budget=3, pool=("live",), events=(0, 1))
+    cfg(f"MC_Events_{sc}_thorough", EVS + ["DestroyService"], ["ends", "dropped"], script=sc, budget=5, conns=(0, 1, 2), pool=("live",), events=(0, 1))
